@@ -166,7 +166,7 @@ static St *Gp;
 static int p_req_full, p_notify_deferred, p_fc_toggled, p_max_size_msg, p_backoff, p_early_req, p_early_out, p_emsgsize,
 	p_send_eagain, p_disc_in_msg, p_ref_outlives, p_closed_retry, p_destroy_alive, p_list_walk, p_client_died, p_server_died,
 	p_refused, p_auth_set, p_pollin_checked, p_sendv_recv, p_event_delivered, p_resp_delivered, p_req_delivered, p_kill_fired,
-	p_hostile_conn, p_drain_ok, p_deferred_window;
+	p_hostile_conn, p_drain_ok, p_deferred_window, p_owner_checked, p_client_cleanup_checked;
 static bool g_avoid_deferred;
 
 extern "C" int use_filesystem_sockets(void);
@@ -203,6 +203,8 @@ static void init(const char *prop)
 	p_kill_fired = counter_id("fault", "kill_before");
 	p_hostile_conn = counter_id("probe", "hostile_connections");
 	p_drain_ok = counter_id("probe", "final_drain_completed");
+	p_client_cleanup_checked = counter_id("probe", "client_cleanup_after_server_death_checked");
+	p_owner_checked = counter_id("probe", "path_ownership_checked_after_connect");
 	p_deferred_window = counter_id("probe", "event_unread_while_notification_deferred");
 	{ const char *av = getenv("SIMK_AVOID"); g_avoid_deferred = av && strstr(av, "deferred-notify-window"); }
 	counter_id("fault", "eintr"); counter_id("fault", "send_eagain"); counter_id("fault", "send_short"); counter_id("fault", "recv_short");
@@ -616,6 +618,8 @@ static void check_out_msg(ClientSt &k, int dir, const uint8_t *buf, ssize_t r, c
 	G.n_msgs_ok++;
 }
 
+static int client_of_path(const std::string &p);
+
 static void check_pollin(ClientSt &k)
 {
 	Conn *c = k.conn;
@@ -669,6 +673,8 @@ static void client_send(ClientSt &k, const Op &op, int mode)
 	size_t rcap = (size_t)c.max_msg + 64;
 	uint8_t *rbuf = NULL;
 	int fc_before = c.fc; uint64_t fc_ch_before = c.fc_changes;
+	bool disc_before = k.saw_disconnect;
+	int64_t w0 = task_blocked_ns();
 	if (mode == 0) r = qb_ipcc_send(k.cc, heap, m.len);
 	else {
 		int niov = (int)std::max<int64_t>(1, std::min<int64_t>(4, op.a[5] > 0 ? op.a[5] : 2));
@@ -690,6 +696,14 @@ static void client_send(ClientSt &k, const Op &op, int mode)
 	free(heap);
 	ev(440 + (uint32_t)mode, c.id, r);
 	client_note_result(k, r);
+	if (which == 3 && disc_before && G.server_dead) {
+		// C03: once a call has reported the disconnect, later calls fail immediately
+		int64_t waited = task_blocked_ns() - w0;
+		if (r >= 0 && m.len <= c.max_msg)
+			VIOL(3, "send-succeeded-after-disconnect", "qb_ipcc_send", "client %d: a send returned %zd after an earlier call had reported the connection dead", k.idx, r);
+		else if (waited > 50 * 1000000LL)
+			VIOL(3, "late-failure-after-disconnect", "qb_ipcc_sendv_recv", "client %d: a call made after the disconnect had been reported waited %lld ms before failing", k.idx, (long long)(waited / 1000000));
+	}
 	// flow control that was on (at a level this client honours) for the whole call must have refused the send
 	if (fc_before > 0 && (uint32_t)fc_before <= k.fcmax && c.fc_changes == fc_ch_before && m.len <= c.max_msg &&
 	    ((mode != 2 && r == (ssize_t)m.len) || (mode == 2 && (r >= 0 || c.fl_req_taken))))
@@ -733,6 +747,7 @@ static void client_recv(ClientSt &k, int dir, int32_t tmo)
 	if (tmo < 0 && !(G.server_dead || G.server_will_die)) tmo = 2500;
 	// plain qb_ipcc_recv(-1) is not promised to return after the server died (only sendv_recv and event_recv are)
 	if (tmo < 0 && dir == 1) tmo = 2500;
+	bool disc_before_recv = k.saw_disconnect;
 	// latency is what the call itself waited for; time during which this process simply was not scheduled does not count
 	int64_t t0 = task_blocked_ns();
 	ssize_t r = dir == 1 ? qb_ipcc_recv(k.cc, buf, cap, tmo) : qb_ipcc_event_recv(k.cc, buf, cap, tmo);
@@ -744,9 +759,26 @@ static void client_recv(ClientSt &k, int dir, int32_t tmo)
 	// C03: finite timeouts are honoured whatever happened to the server
 	if (tmo >= 0 && t1 - t0 > (int64_t)tmo * 1000000LL + 50 * 1000000LL)
 		VIOL(3, "client-call-overran-timeout", dir == 1 ? "qb_ipcc_recv" : "qb_ipcc_event_recv", "client %d: call with timeout %d ms took %lld ms of virtual time", k.idx, tmo, (long long)((t1 - t0) / 1000000));
+	if (which == 3 && dir == 2 && disc_before_recv && G.server_dead && r < 0 && t1 - t0 > 50 * 1000000LL)
+		VIOL(3, "late-failure-after-disconnect", "qb_ipcc_event_recv", "client %d: event_recv made after the disconnect had been reported waited %lld ms before failing", k.idx, (long long)((t1 - t0) / 1000000));
 	if (tmo < 0 && G.server_dead && dir == 2 && t1 - t0 > 2 * 2000 * 1000000LL + 1000 * 1000000LL)
 		VIOL(3, "client-wait-forever-not-bounded", "qb_ipcc_event_recv", "client %d: event_recv(-1) took %lld ms after the server died", k.idx, (long long)((t1 - t0) / 1000000));
 	free(buf);
+}
+
+static int shm_leftovers(int server_spid, int client_spid, bool files_only, std::string &example);
+
+static void check_client_cleanup(ClientSt &k, bool server_dead_before)
+{
+	// C03: when the server died, the client's disconnect removes the shared-memory files the server left behind
+	// (only when the server was already dead when the disconnect started: a server that dies later, half-way through its
+	// own clean-up of a connection the client has already left, has nobody to tidy up after it)
+	if (which != 3 || !server_dead_before || failed()) return;
+	std::string ex;
+	int n = shm_leftovers(G.server_spid, k.spid, true, ex);
+	count(p_client_cleanup_checked);
+	if (n > 0)
+		VIOL(3, "client-disconnect-leaves-files", "qb_ipcc_disconnect", "client %d disconnected after the server had died, yet %d shared-memory file(s) of its connection remain, e.g. %s", k.idx, n, ex.c_str() + 9);
 }
 
 static void client_main(void *arg)
@@ -782,6 +814,21 @@ static void client_main(void *arg)
 						VIOL(2, "negotiated-size-mismatch", "qb_ipcc_connect", "client sees maximum %d, server %u", qb_ipcc_get_buffer_size(k.cc), k.conn->max_msg);
 				}
 				qb_ipcc_fc_enable_max_set(k.cc, k.fcmax);
+				if (which == 5 && k.conn && !G.server_dead) {
+					// from now on everything created for this connection belongs to whom the accept callback authorised
+					for (std::set<std::string>::iterator it = G.ledger_paths.begin(); it != G.ledger_paths.end() && !failed(); ++it) {
+						if (client_of_path(*it) != k.idx) continue;
+						struct stat st;
+						if (lstat(it->c_str(), &st) != 0) continue;
+						unsigned u = ~0u, g = ~0u;
+						bool known = path_owner(it->c_str(), &u, &g);
+						count(p_owner_checked);
+						if (!known || u != k.conn->auth_uid || g != k.conn->auth_gid)
+							VIOL(5, S_ISDIR(st.st_mode) ? "directory-wrong-owner" : "file-wrong-owner", "handle_new_connection",
+							     "%s is owned by %d:%d, the accept callback authorised %u:%u (%s)", S_ISDIR(st.st_mode) ? "connection directory" : "shared file",
+							     known ? (int)u : -1, known ? (int)g : -1, k.conn->auth_uid, k.conn->auth_gid, it->c_str() + 9);
+					}
+				}
 			} else {
 				if (k.conn && k.conn->refused) {
 					if (e != k.conn->refused) VIOL(5, "refusal-errno-lost", "qb_ipcc_connect", "accept callback refused with %d but qb_ipcc_connect failed with errno %d", k.conn->refused, e);
@@ -808,8 +855,12 @@ static void client_main(void *arg)
 		case K_C_DISCONNECT:
 			if (!k.cc) break;
 			if (k.conn) k.conn->client_gone = true;
-			qb_ipcc_disconnect(k.cc);
-			k.cc = NULL; k.conn = NULL;
+			{
+				bool dead_before = G.server_dead;
+				qb_ipcc_disconnect(k.cc);
+				k.cc = NULL; k.conn = NULL;
+				check_client_cleanup(k, dead_before);
+			}
 			break;
 		case K_C_DIE:
 			count(p_client_died);
@@ -850,8 +901,10 @@ static void client_main(void *arg)
 	}
 	if (k.cc) {
 		if (k.conn) k.conn->client_gone = true;
+		bool dead_before = G.server_dead;
 		qb_ipcc_disconnect(k.cc);
 		k.cc = NULL;
+		check_client_cleanup(k, dead_before);
 	}
 	k.done = true;
 }
